@@ -14,7 +14,7 @@ ENGINES = {
 PROP = {
     "engines": ["plan"],
     "lean_modules": ["AxVerif.Model.Plan", "AxVerif.Model.Index", "AxVerif.Lemmas.Plan", "AxVerif.Lemmas.Index",
-                     "AxVerif.Lemmas.PlanRules", "AxVerif.Lemmas.PlanSql", "AxVerif.Model.Sql", "AxVerif.Lemmas.Sql"],
+                     "AxVerif.Lemmas.PlanRules", "AxVerif.Lemmas.PlanSql", "AxVerif.Lemmas.PlanOrd", "AxVerif.Model.Sql", "AxVerif.Lemmas.Sql"],
     "rule": "one case = a database (1-3 tables, 0-320 rows, unique indexes over one or two columns, INT/BIGINT/TEXT keys), a "
             "history (INSERT, UPDATE of plain / unique / indexed columns, DELETE by key, by range over an indexed column and by "
             "other predicates, re-insertion of deleted keys, committed and rolled-back sessions, VACUUM, ANALYZE with sample "
@@ -24,7 +24,9 @@ PROP = {
             "created at the `mkix` op) and runs every query (a) as written, (b) with every indexed integer column wrapped as "
             "(col + 0), (c) with the join operands permuted (LEFT<->RIGHT, ON conjuncts reordered and redistributed), (f) with every "
             "table replaced by a derived table over its permuted columns, part of a single-table WHERE moved inside (filter over "
-            "projection over filter: push-down through projections, filter merge), (e) on the late-index database, (d) again after "
+            "projection over filter: push-down through projections, filter merge), (g) with the last column = column conjunct of "
+            "the outermost ON clause written (x + 0) = y (no equi-join key: no hash or merge join there, no ordering asked of the "
+            "joins below), (e) on the late-index database, (d) again after "
             "ANALYZE; DML runs on both databases. All forms must give the same canonical "
             "result and that result must equal the Lean reference evaluator's (`same <result>`). Database::explain of every form "
             "is recorded; tags m.pairs* / m.differ* count the compared pairs and the pairs whose plan shapes differ, m.uses.* "
@@ -35,6 +37,26 @@ PROP = {
             "schemas (nullable / NOT NULL columns, up to two indexes per table) is inserted into a fresh memo through the "
             "`verif::plan` facade, every transformation rule of rules.rs is applied to its root and the alternatives (as plain trees) "
             "must be exactly what the Lean rule functions of Model/Plan.lean produce (tags rule.fires.* = rules that fired). "
+            "A third of the clean cases carry the family 'keys re-used inside one transaction': within one session (committed or "
+            "rolled back) or one Database::execute_batch (`batch … endbatch`) rows are deleted and rows with the same indexed keys "
+            "inserted again (same or other values), or inserted then deleted, or delete-insert-delete[-insert], or the key of a "
+            "rolled-back INSERT is inserted again; every touched key is then looked up by equality and by range — index plan against "
+            "table scan through the pair forms — before and after VACUUM (and ANALYZE where allowed). "
+            "A tenth of the pair cases are the family 'join chains over a shared key' (tag fam.chain): three small tables without "
+            "indexes, T JOIN U ON T.a = U.x JOIN V ON <keys> where the upper join's keys start with the lower join's left key(s) "
+            "and go on with a further column (60 %: stacked merge joins, the lower one delivers [a], the upper one requires "
+            "[a, b]), are exactly those keys, hold them last, or do not hold them; few distinct values in the first key column, "
+            "the further key columns in no particular order, NULL keys in a quarter of the cases; INNER / LEFT mostly, RIGHT / FULL "
+            "sometimes; the query runs before and after ANALYZE (on small tables the plan changes from merge joins to nested loops) "
+            "and again after further INSERTs, each time in the forms a, c, f, g against the reference answer. "
+            "For every form of every query the plan the optimizer returned is read through the facade (operator, declared "
+            "ordering, ordering required of each input): an operator whose input does not declare the ordering it requires "
+            "(required keys = first keys declared) is a failure `input-not-ordered` whatever the data (m.ordering-required counts the "
+            "checked inputs). "
+            "Ordering cases (`ord <delivered> <required>`, 400 / 4 000 per run): PhysicalProperties::satisfies, called through the "
+            "facade on random pairs of orderings near the boundary (equal, one a prefix of the other either way, one key differing in "
+            "column, direction or kind), must answer what Plan.satisfies answers (= the required ordering leads the delivered one, "
+            "Thm.C06.ordering_satisfies_iff_prefix). "
             "Every case is non-trivial; distinct = distinct case line.",
     "assumptions": [
         "indexed columns hold distinct non-NULL values (every index of the engine is a unique index; duplicates and NULLs in "
@@ -56,9 +78,13 @@ PROP = {
                "DISTINCT, ORDER BY and LIMIT sit above the rewritten part of a plan and are not touched by any rule: covered by the tie "
                "only. That the engine's rules are these functions is tested structurally (rule-level cases through the verif::plan facade), "
                "that its executors implement the algebra and its cost-based choice stays inside the reachable plans is tested through "
-               "the pair runs; neither is proved.",
+               "the pair runs; neither is proved. Orderings: the satisfies rule, 'ordered by more keys implies ordered by fewer' and the "
+               "soundness of the sort enforcer are proved for the ordering model; that a merge join over inputs ordered by its keys "
+               "returns the join's rows is not proved (model `mergeInner` serves the witness only) — tested through the chain family.",
     "trusted": ["SQL printer of the three query forms (wrapping, operand permutation) and result canonicaliser of the Rust harness",
-                "the plan-shape digest read from Database::explain (diagnostics only, never gating)"],
+                "the plan-shape digest read from Database::explain (diagnostics only, never gating)",
+                "the orderings a plan node declares and requires are read from the optimizer's PhysicalPlan by the facade; that an "
+                "operator really delivers the ordering it declares (Sort, MergeJoin executors) is tested through the answers only"],
 }
 
 TEXT = {
